@@ -323,7 +323,7 @@ Proof.
          assert (x = th0) as -> by (apply (nodup_ids_unique (threads s0)); [apply (g_nodup _ G0)|exact Hx|exact Hin|exact He])
        end.
   all: cbn; split; [reflexivity|]; unfold reset_fact, loop_fresh in *; cbn; auto.
-  - rewrite E1. auto.
+  - match goal with E : loop _ = None |- _ => rewrite E end. auto.
   - destruct (aok && ok); [|exact I]. destruct Hfact as [_ Ha]. repeat split; auto.
 Qed.
 
